@@ -446,7 +446,8 @@ def arm_table(prog, body, adt_name, switch_blk=None):
         for d, vn in names.items():
             if d not in listed:
                 targets[vn] = other
-    regions = {vn: body.reachable_from(tgt) for vn, tgt in targets.items()}
+    # the switch block is a barrier: inside a loop every arm would otherwise reach every other arm
+    regions = {vn: body.reachable_from(tgt, avoid={sb}) for vn, tgt in targets.items()}
     distinct = set(targets.values())
     table = {}
     for vn, tgt in targets.items():
